@@ -25,12 +25,16 @@ def _steps(c):
 
 
 def c03_nontrivial(c, i):
+    if i == ["bad-harness"]:
+        return False
     # a kill happened and file.d read something after the restart or skipped past saved offsets
     return "crash" in i and "idle" in i and ("in" in i)
 
 
 def c03_classify(c, i):
     out = []
+    if i == ["bad-harness"]:
+        return ["not-evaluated:bad-harness"]
     if len(c) > 5:
         out.append("mode=" + ("sync" if c[1] == "s" else "async"))
         out.append("kill=" + {"x": "at-step", "e": "after-record-k", "t": "timed"}.get(c[5][:1], "?"))
